@@ -121,7 +121,7 @@ def make_line(rnd, fam=None, small=True, outs=None, d=None, limits=None):
         rule = rnd.choice(SEQ_RULES) if fam == "sequence" else rnd.choice(GLOBAL_NESTED) if fam == "global" else "fourier"
         maxdepth = {1: 5, 2: 4, 3: 3}[d]
         if fam == "fourier":
-            maxdepth = {1: 3, 2: 2, 3: 1}[d]
+            maxdepth = {1: 3, 2: 2, 3: 2}[d]       # 3-D needs depth 2 for tensors that are non-constant in two non-adjacent directions
         if fam == "global" and rule in ("clenshaw-curtis", "clenshaw-curtis-zero", "fejer2", "gauss-patterson", "rleja-shifted-double"):
             maxdepth = {1: 4, 2: 3, 3: 2}[d]
         depth = rnd.randint(0 if rnd.random() < 0.1 else 1, maxdepth)
